@@ -640,6 +640,36 @@ def r15_enumerate(text):
     return []
 
 
+# ---------------------------------------------------------------- R16 `for P in it_N_ {` -> `while let Some(P) = it_N_.next() {`
+def r16_for_to_while(text, only=None):
+    """After R10 has hoisted the iterator: `let it_N_ = E; for P in it_N_ { B }` ->
+    `let mut it_N_ = E; while let Some(P) = it_N_.next() { B }`. This is the definition of `for`
+    (minus the IntoIterator call, which R10 already evaluated); needed because Verus rejects `continue`
+    inside `for`. Applied only to the loops listed in `r16_only` (ordinals of hoisted iterators)."""
+    m = mask(text)
+    for mt in re.finditer(r"(?<![A-Za-z0-9_])for(?![A-Za-z0-9_])", m):
+        try:
+            bo = _cond_end(m, mt.end())
+        except Unsupported:
+            continue
+        inm = re.search(r"\sin\s+(it_(\d+)_)\s*$", m[mt.end():bo])
+        if not inm:
+            continue
+        num = int(inm.group(2))
+        if only is not None and num not in only:
+            continue
+        name = inm.group(1)
+        pat = text[mt.end():mt.end() + inm.start()].strip()
+        decl = re.search(r"(?<![A-Za-z0-9_])let\s+%s\s*=" % re.escape(name), m[:mt.start()])
+        if not decl:
+            raise Unsupported("R16: hoisted iterator declaration not found")
+        ds = decl.start() + m[decl.start():decl.end()].index(name)
+        e1 = Edit(ds, ds, "mut ", "R16")
+        e2 = Edit(mt.start(), bo, "while let Some(%s) = %s.next() " % (pat, name), "R16")
+        return [e1, e2]
+    return []
+
+
 # ---------------------------------------------------------------- R14 const fn
 def r14_const_fn(text):
     m = mask(text)
@@ -652,7 +682,7 @@ def r14_const_fn(text):
 # ---------------------------------------------------------------- R15 matches! with binding-free patterns is fine; nothing to do
 
 
-ITERATED = {"R6", "R7", "R10", "R11", "R15"}
+ITERATED = {"R6", "R7", "R10", "R11", "R15", "R16"}
 
 TABLE = {
     "R1": r1_visibility,
@@ -670,10 +700,11 @@ TABLE = {
     "R13": r13_for_ref,
     "R14": r14_const_fn,
     "R15": r15_enumerate,
+    "R16": r16_for_to_while,
 }
-ORDER = ["R2", "R1", "R1p", "R14", "R4", "R3", "R5", "R6", "R15", "R13", "R11", "R7", "R8", "R12", "R10"]
+ORDER = ["R2", "R1", "R1p", "R14", "R4", "R3", "R5", "R6", "R15", "R13", "R11", "R7", "R8", "R12", "R10", "R16"]
 
-EXEC_TOUCHING = {"R3", "R4", "R6", "R7", "R8", "R10", "R11", "R12", "R13", "R14", "R15"}
+EXEC_TOUCHING = {"R3", "R4", "R6", "R7", "R8", "R10", "R11", "R12", "R13", "R14", "R15", "R16"}
 
 
 def apply_rewrites(text, enabled, opts=None):
@@ -698,6 +729,8 @@ def apply_rewrites(text, enabled, opts=None):
                 eds = fn(cur, opts.get("r10_only"))
             elif rid == "R13":
                 eds = fn(cur, opts.get("r13_idents", ()))
+            elif rid == "R16":
+                eds = fn(cur, opts.get("r16_only"))
             elif rid == "R2":
                 eds = fn(cur, opts.get("drop_derives", ()))
             else:
